@@ -36,6 +36,7 @@ def frames_shape(I, loc):
     fl.fields['set'] = dict(fl.fields['set'])
     fl.fields['set']['END_HEADERS'] = I.fresh('first.END_HEADERS', 'bool')
     I.g_enc = I.fresh('g_enc_after', 'int')
+    I.g_nencode = I.fresh('g_nencode_after', 'int')
     return I.heap.alloc(ListObj(items))
 
 
@@ -58,6 +59,9 @@ contract(BHF, props=['C02', 'C13', 'C14', 'C29'],
              ('non-final-chunks-full', 'all(len(f.data) == m for f in result[:-1])', ['C02']),
              ('first-frame-otherwise-untouched', 'first_frame.stream_id == old(first_frame.stream_id) and ("END_STREAM" in first_frame.flags) == old("END_STREAM" in first_frame.flags) and ("PRIORITY" in first_frame.flags) == old("PRIORITY" in first_frame.flags) and ("PADDED" in first_frame.flags) == old("PADDED" in first_frame.flags) and first_frame.pad_length == old(first_frame.pad_length)', ['C02']),
              ('context-advanced-at-most-once', 'g_enc == enc0 or g_enc == enc0 + 1', ['C13']),
+             # every emitted block went through the encoder exactly once: that call is also what carries a pending
+             # dynamic-table-size update to the peer (RFC 7541 4.2), even for an empty header list
+             ('encoded-exactly-once', 'g_nencode == old(g_nencode) + 1', ['C13']),
              ('block-nonempty', 'len(result) >= 1', ['C02', 'C29'])],
     raises=[dict(exc='ProtocolError', props=['C14', 'C13'],
                  when='self.config.validate_outbound_headers',
